@@ -40,6 +40,7 @@ type Explorer struct {
 	obls      []*Obligation
 	fresh     int
 	nextRef   int
+	cellSeq   int
 	notes     map[string]int
 	unmod     map[string]int // unmodelled calls
 	assumed   map[string]int // assumed (trusted / interface) contracts used
@@ -427,6 +428,11 @@ func (x *Explorer) doAlloc(st *State, f *Frame, a *ssa.Alloc) {
 	t := a.Type().(*types.Pointer).Elem()
 	if !a.Heap {
 		f.cells[a] = st.eng.zeroVal(t)
+		st.x.cellSeq++
+		if f.cellOrd == nil {
+			f.cellOrd = map[*ssa.Alloc]int{}
+		}
+		f.cellOrd[a] = st.x.cellSeq // shared between forks on purpose: only the relative order matters
 		f.env[a] = VPtr{Alloc: a, Frame: len(st.frames) - 1, Root: t}
 		return
 	}
